@@ -4,6 +4,7 @@ spec/HnswConc.tla (Insert / Remove / Search cut at the yield points; TLC: LenOK,
 thread program), HnswConcTrace (binding V).  Harness: cmd/conc (gate-forced schedules through the verif yield points,
 free-running stress with call-interval stamps; also built with -race)."""
 import json
+import re
 import os
 import subprocess
 
@@ -45,7 +46,22 @@ def run(ctx):
     runs = [(1, 4), (1, 2), (3, 2), (4, 0)] * (2 if quick else 12)
     for i, (w, r) in enumerate(runs):
         p = ctx.path("stress-%d.ndjson" % i)
-        ctx.run([conc, "stress", p, str(ctx.seed * 100 + i), str(w), str(r), "300" if quick else "1500"], timeout=600)
+        where = "stress:%s" % ("single-writer" if w == 1 else "multi-writer")
+        try:
+            sp = subprocess.run([conc, "stress", p, str(ctx.seed * 100 + i), str(w), str(r), "300" if quick else "1500"],
+                                stdout=subprocess.PIPE, stderr=subprocess.PIPE, timeout=600, env=vlib.goenv(), cwd=ctx.scratch)
+        except subprocess.TimeoutExpired:
+            raise vlib.NoVerdict("stress run %d timed out" % i)
+        if sp.returncode != 0:
+            err = sp.stderr.decode(errors="replace")
+            m = re.search(r"^fatal error: (concurrent map[^\n]*|all goroutines are asleep[^\n]*)", err, re.M)
+            if not m:
+                raise vlib.NoVerdict("stress harness exit %d: %s" % (sp.returncode, err[-2000:]))
+            # the Go runtime killed the process inside the index code: an unrecoverable crash of the real code
+            frames = [x.strip() for x in err.splitlines() if "anndb/index." in x][:4]
+            ctx.finding("RuntimeFatal@%s" % where, "RuntimeFatal@%s: the Go runtime aborted the process with '%s' with %d writers and %d readers on one index (%s)"
+                        % (where, m.group(0), w, r, "; ".join(frames)), {"writers": w, "readers": r, "seed": ctx.seed * 100 + i, "stderr": err[:3000]})
+            continue
         txt = open(p).read()
         parts.append(txt)
         origin += ["stress:%s" % ("single-writer" if w == 1 else "multi-writer")] * len(txt.splitlines())
